@@ -6,11 +6,12 @@
 # printed - each one is a false alarm of the checker.
 # usage: tools/check_refactors.sh [X ...]   (default: all)
 cd /verif
+snap=$(mktemp /tmp/verifsa.XXXXXX); cp bin/verifsa $snap; chmod +x $snap   # later rebuilds must not disturb a running check
 run() { # $1 = base, $2 = optional patch
   wt=$(mktemp -d /tmp/rfwt.XXXXXX); ev=$(mktemp -d /tmp/rfev.XXXXXX); cp known_findings.json "$ev"/
   git -C /repo worktree add --detach "$wt" "$1" >/dev/null 2>&1 || { echo "worktree failed"; return; }
   if [ -n "$2" ]; then git -C "$wt" apply "$2" || echo "PATCH DOES NOT APPLY"; fi
-  VERIF_REPO="$wt" VERIF_DIR="$ev" bin/verifsa check ALL 2>&1 | grep -E "^\S+: \[[A-Z0-9a-z]+\] |CHECKER-FAILURE" | sed -E 's/^[^[]*(\[[A-Za-z0-9]+\] [^:]*(: [^:]*)?).*/\1/' | sort -u
+  VERIF_REPO="$wt" VERIF_DIR="$ev" $snap check ALL 2>&1 | grep -E "^\S+: \[[A-Z0-9a-z]+\] |CHECKER-FAILURE" | sed -E 's/^[^[]*(\[[A-Za-z0-9]+\] [^:]*(: [^:]*)?).*/\1/' | sort -u
   rm -rf "$ev"; git -C /repo worktree remove --force "$wt"
 }
 sel="$*"; [ -z "$sel" ] && sel=$(ls seeded/refactors)
@@ -22,4 +23,4 @@ for x in $sel; do
   new=$(comm -13 /tmp/rf.base.$base.txt /tmp/rf.cur.txt)
   echo "## $d: $(echo "$new" | grep -c . ) new alarm(s)"; [ -n "$new" ] && echo "$new" | cut -c1-220
 done
-rm -f /tmp/rf.base.*.txt /tmp/rf.cur.txt
+rm -f /tmp/rf.base.*.txt /tmp/rf.cur.txt $snap
